@@ -1,9 +1,104 @@
-"""C07 helper obligations (boolean wrappers / propagation) - filled in once send_message's contract exists."""
+"""C07 helper obligations: for every typed request helper (discovered by walking protocol/messages/**/send_messages.py)
+an error raised by send_message is either propagated unchanged, or - for the three documented boolean wrappers -
+reported as False."""
+from __future__ import annotations
+
+import ast
+import os
+
+import z3
+
+from pyvc import vals as V
+from pyvc.vals import Val
+from pyvc import envs as E
+from pyvc.verify import Contract
+from pyvc.loader import Repo
+from checks import sendmsg as SM
+
+BOOL_WRAPPERS = {"send_ping", "send_resources_subscribe", "send_resources_unsubscribe"}
+MSGS = "src/chuk_mcp/protocol/messages"
+# helpers whose error handling is specified by another property
+OTHER_PROPERTY = {"send_initialize": "C03 (may raise the documented VersionMismatchError instead)",
+                  "send_initialize_with_client_tracking": "C03", "send_initialized_notification": "not a request"}
+
+
+def discover(repo: Repo):
+    out = []
+    base = os.path.join(repo.root, MSGS)
+    for d, _, files in sorted(os.walk(base)):
+        for f in sorted(files):
+            if f != "send_messages.py":
+                continue
+            rel = os.path.relpath(os.path.join(d, f), repo.root)
+            mi = repo.load_path(rel)
+            for name, fi in sorted(mi.functions.items()):
+                if not fi.is_async or not name.startswith("send_"):
+                    continue
+                calls = [n for n in ast.walk(fi.node) if isinstance(n, ast.Call) and isinstance(n.func, ast.Name)
+                         and n.func.id == "send_message"]
+                if calls:
+                    out.append(fi)
+    return out
+
+
+class Helper(Contract):
+    prop = "C07"
+
+    def __init__(self, fi):
+        self.key = fi.key
+        self.fn = fi.name
+        self.fi = fi
+        self.covers = ("return",) if fi.name in BOOL_WRAPPERS else (f"raise:{SM.RETRYABLE_CLS}", f"raise:{SM.NONRETRYABLE_CLS}")
+
+    def setup(self, I):
+        I.callsite_prefix = f"C07.{self.fn}"
+        rs, ws = E.make_read_stream(I, "rs"), E.make_write_stream(I, "ws")
+        a = self.fi.node.args
+        params = a.posonlyargs + a.args
+        nd = len(a.defaults)
+        args = []
+        for k, p in enumerate(params):
+            if p.arg == "read_stream":
+                args.append(rs)
+            elif p.arg == "write_stream":
+                args.append(ws)
+            elif k >= len(params) - nd:
+                break                                   # leave defaults
+            else:
+                v = I.fresh(p.arg)
+                ann = ast.unparse(p.annotation) if p.annotation is not None else ""
+                if ann == "str":
+                    I.assume(V.is_str(v))
+                elif ann.startswith("Dict") or ann == "dict":
+                    I.assume(z3.And(V.is_dict(v), Val.dsize(v) >= 0))
+                elif ann.startswith("List") or ann == "list":
+                    I.assume(V.is_list(v))
+                elif ann == "int":
+                    I.assume(V.is_int(v))
+                args.append(v)
+        return args, {}
+
+    def post(self, I, result):
+        if self.fn in BOOL_WRAPPERS:
+            I.oblige(self.name("error_response_is_reported_as_false_not_raised"), result == V.FALSE)
+        else:
+            I.oblige(self.name("error_response_never_completes_the_call_normally"), z3.BoolVal(False))
+
+    def post_exc(self, I, e):
+        raised = I.ghost.get("send_message_raised")
+        if raised is None:
+            return            # failed before the request was issued (malformed arguments): not an error response
+        if self.fn in BOOL_WRAPPERS:
+            I.oblige(self.name(f"boolean_wrapper_never_raises_for_an_error_response[{e.cls_name.split('.')[-1]}]"),
+                     z3.BoolVal(False))
+            return
+        I.oblige(self.name("propagates_the_classified_exception_unchanged"), e.val == raised)
 
 
 def contracts():
-    return []
+    repo = Repo()
+    return [Helper(fi) for fi in discover(repo) if fi.name not in OTHER_PROPERTY]
 
 
 def modular():
-    return {}
+    return {SM.SEND_KEY: SM.SendMessageModular(outcomes=("retryable", "nonretryable"))}
